@@ -197,9 +197,6 @@ func c09Scenarios(thorough bool) []string {
 	}
 	// a member leaves a stable ring (lookups at every pause point of the real Leave)
 	lrings := [][]uint64{{100, 200, 300}, {5, 1 << 47, M - 2}}
-	if thorough {
-		lrings = append(lrings, []uint64{100, 200}, []uint64{100, 200, 300, 400}, []uint64{0, 1 << 46, 1 << 47, 3 << 46})
-	}
 	for _, r := range lrings {
 		for _, l := range r {
 			out = append(out, fmt.Sprintf("ring=%s;l=%d;via=0", joinU(r), l))
